@@ -7,7 +7,7 @@ Tie: harness/h_retry.c = the real libmunge client, a fault-injecting proxy and t
 build byte-exact against the model, real-primitive build judged by the property oracle alone."""
 import itertools, json, os
 from ..vlib import leanlib, cbuild, core
-from ..gen import g_dec, g_retry
+from ..gen import g_dec, g_retry, g_msg
 from . import _cred_common as cc
 
 LEVEL = "proof"
@@ -347,6 +347,9 @@ def gen_and_build(ctx):
         gdec = g_dec.generate(ctx)
         gret = g_retry.generate(ctx)
         h0 = _gen_hash()
+        # m_msg_send translated: the header (which carries the retry count) is packed afresh on every send
+        if g_msg.generate(ctx):
+            leanlib.check_props(ctx, "C14Recv")
         leanlib.check_props(ctx, "C13")
         drv = leanlib.driver(ctx) if (gdec and gret) else None
         if _gen_hash() == h0 or attempt == 3:
